@@ -7,6 +7,7 @@ import (
 	"runtime"
 	"strconv"
 	"strings"
+	"sync/atomic"
 	"time"
 
 	simdjson "github.com/minio/simdjson-go"
@@ -73,12 +74,18 @@ func runBigStream(op string) string {
 		old := runtime.GOMAXPROCS(procs)
 		defer runtime.GOMAXPROCS(old)
 	}
-	rd := &scriptReader{data: data, sizes: sizes, errAt: -1}
+	// A hang is the absence of progress, not a duration: the machine may be loaded (a thorough run of every property
+	// in parallel made this op 20 times slower than alone).  Progress = a Read of the reader or a delivery.
+	var progress atomic.Int64
+	rd := &countingReader{r: &scriptReader{data: data, sizes: sizes, errAt: -1}, n: &progress}
 	res := make(chan simdjson.Stream, 2)
 	simdjson.ParseNDStream(rd, res, nil)
 	var held []*simdjson.ParsedJson
 	var finalErr error
-	timeout := time.After(120 * time.Second)
+	const stall = 180 * time.Second
+	tick := time.NewTicker(5 * time.Second)
+	defer tick.Stop()
+	last, lastAt := int64(-1), time.Now()
 	closed := false
 loop:
 	for {
@@ -98,12 +105,17 @@ loop:
 				return "value delivered after the error"
 			}
 			held = append(held, s.Value)
-		case <-timeout:
-			break loop
+			progress.Add(1)
+		case <-tick.C:
+			if p := progress.Load(); p != last {
+				last, lastAt = p, time.Now()
+			} else if time.Since(lastAt) > stall {
+				break loop
+			}
 		}
 	}
 	if !closed {
-		return "result channel not closed within 120 s"
+		return fmt.Sprintf("no Read and no delivery for %v and the result channel is not closed (%d values delivered)", stall, len(held))
 	}
 	if !errors.Is(finalErr, io.EOF) {
 		return fmt.Sprint("final error: ", finalErr)
@@ -155,6 +167,16 @@ loop:
 		return fmt.Sprintf("%d documents delivered, the stream has %d", n, len(ids))
 	}
 	return fmt.Sprintf("ok %d", n)
+}
+
+type countingReader struct {
+	r io.Reader
+	n *atomic.Int64
+}
+
+func (c *countingReader) Read(p []byte) (int, error) {
+	c.n.Add(1)
+	return c.r.Read(p)
 }
 
 func bigStreamCase(rn *runner, cr *rng, kind string, chunks, procs, readSize int, note string) {
